@@ -359,6 +359,18 @@ def run_shard(ctx):
                 check_case(ctx, {'lib': name, 'smiles': smi,
                                  'estimates': k % 10 == 0})
             i += 1
+        # molecules every scheme refuses, with SEVERAL unassignable atoms --
+        # bonded to each other, apart, at the start and at the end of the
+        # atom order: "the same failure" whichever atom is met first
+        for smi in ('CSSCCS', 'SSCCS', 'NNCCN', 'NCCNN', 'NNCCNN',
+                    'C[Si]([Si])CC[Si]', 'FC(F)(F)CCF', 'ClSCCCl', 'FSSF',
+                    'CS(C)SCCCl', 'ClCCSSC', 'BrCC(Br)SS', 'PCCPP',
+                    'C[Se][Se]CC[Se]C'):
+            if ctx.mine(i):
+                ctx.count('refused_molecules_with_several_unassignable_atoms')
+                check_case(ctx, {'lib': name, 'smiles': smi,
+                                 'estimates': False})
+            i += 1
         if name in ('BensonGA', 'PPY'):
             # scale: ordinary but LARGE molecules (more than 417 heavy atoms:
             # 24 non-unique embeddings per sp3 carbon reach the library's
